@@ -446,6 +446,68 @@ def r2_10_header_validation(ctx, prog, rule="R2.10"):
     ctx.floor(rule, "accepting paths of MessageHeader::decode", n_ok, 1)
 
 
+RESERVED_TABLE = [
+    # (attribute type path, decoded value may depend only on the first N bytes of the value, consumed size)
+    ("turn::channel_number::ChannelNumber", 2, 4),
+    ("turn::requested_transport::RequestedTrasport", 1, 4),
+    ("turn::requested_address_family::RequestedAddressFamily", 1, 4),
+    ("turn::additional_address_family::AdditionalAddressFamily", 1, 4),
+]
+FIXED_READERS = {"common::decode": None, "ProtocolNumber::decode": 1, "AddressFamily::decode": 1}
+
+
+def r2_11_reserved_ignored(ctx, prog, rule="R2.11"):
+    ctx.rule(rule, "reserved (RFFU) bytes of CHANNEL-NUMBER, REQUESTED-TRANSPORT, REQUESTED- / ADDITIONAL-ADDRESS-FAMILY are "
+                   "ignored by the receiver: the decoded value is built only from a fixed-size reader applied to the start of "
+                   "the value (2 / 1 / 1 / 1 bytes); no other byte of the value reaches it; the consumed size is 4")
+    n = 0
+    for ty, keep, size in RESERVED_TABLE:
+        fn = "<stun_rs::attributes::%s as stun_rs::attributes::DecodeAttributeValue>::decode" % ty
+        b = prog.body(fn, required=False)
+        if b is None:
+            continue
+        paths, info = C.explore_fn(prog, fn, "x", [r"\{closure"])
+        ctx.fn(b)
+        for pa in paths:
+            r = C.expr_of(pa, pa.ret)
+            if not (isinstance(r, tuple) and r[0] == "Result::Ok"):
+                continue
+            n += 1
+            val = r[1]
+            probs = []
+            if not (isinstance(val, tuple) and val[0] == "tuple" and len(val) == 3 and val[2] == size):
+                probs.append("consumed size is %s" % (show(val[2])[:30] if isinstance(val, tuple) and len(val) == 3 else "?"))
+            v = val[1] if isinstance(val, tuple) and len(val) == 3 else None
+            txt = repr(v)
+            RV = repr((("AttributeDecoderContext::raw_value", "top:ctx"), ".*"))
+            # every occurrence of the raw value inside the decoded value must be the argument of one fixed-size reader
+            occ = txt.count("AttributeDecoderContext::raw_value")
+            readers = []
+
+            def walk(t):
+                if isinstance(t, tuple):
+                    if t and isinstance(t[0], str) and t[0] in FIXED_READERS and len(t) == 2 and repr(t[1]) == RV:
+                        readers.append(t[0])
+                        return
+                    for x in t:
+                        walk(x)
+            walk(v)
+            if occ != len(readers) or len(readers) != 1:
+                probs.append("the value references the raw bytes %d time(s) outside a single fixed-size reader: %s" % (occ - len(readers), show(v)[:120]))
+            else:
+                width = FIXED_READERS[readers[0]]
+                if width is None:
+                    # generic integer reader: its width is the type parameter of the call on this path
+                    cs = [e[1] for e in pa.calls if C.short(e[1]) == readers[0] and repr(C.expr_of(pa, e[2])[0]) == RV]
+                    m = re.search(r"Decode<'\w+> for (u16|u32|u64)>::decode$", cs[0]) if cs else None
+                    width = {"u16": 2, "u32": 4, "u64": 8}.get(m.group(1)) if m else None
+                if width != keep:
+                    probs.append("reader %s reads %s byte(s), the meaningful field has %d" % (readers[0], width, keep))
+            ctx.ob(rule, "reserved:%s" % ty.split("::")[-1], not probs, "; ".join(probs) or "decoded value = %s; %d bytes consumed" % (show(v)[:100], size),
+                   info["where"], replay=None if not probs else pa.describe())
+    ctx.floor(rule, "decoders with reserved fields", n, 4)
+
+
 
 def check(ctx, env):
     ctx.explanation = (
@@ -469,6 +531,7 @@ def check(ctx, env):
     r2_6_address_layout(ctx, prog)
     r2_7_u16_list(ctx, prog)
     r2_10_header_validation(ctx, prog)
+    r2_11_reserved_ignored(ctx, prog)
     c01.r1_6_nested_padding(ctx, prog, rule="R2.8")      # inner padding of the nested PASSWORD-ALGORITHMS list is written where it belongs
     from . import coverage_rules
     coverage_rules.r14_5_write_coverage(ctx, prog, rule="R2.9")   # every byte of an encoded value is written (reserved / padding bytes cannot keep stale data)
